@@ -247,6 +247,14 @@ Proof.
     repeat split; try assumption; intros j; destruct (j =? i); cbn [p_static p_inherited p_src]; auto.
   - unfold pinv. cbn [with_port w_ports w_csrc w_u]. unfold upd.
     repeat split; try assumption; intros j; destruct (j =? i); cbn [p_static p_inherited p_src]; auto.
+  - (* MgrStatic: the value is clamped to 200 *)
+    unfold pinv. cbn [with_port w_ports w_csrc w_u]. unfold upd.
+    repeat split; try assumption; intros j; destruct (j =? i); cbn [p_static p_inherited p_src]; auto.
+    change SOURCE_PRIORITY_MAX with 200.
+    destruct (p_static (w_ports w i) =? (if 200 <? v then 200 else v)); [apply Hs|].
+    destruct (200 <? v) eqn:C; [lia|apply N.ltb_ge in C; exact C].
+  - unfold pinv. cbn [with_port w_ports w_csrc w_u]. unfold upd.
+    repeat split; try assumption; intros j; destruct (j =? i); cbn [p_static p_inherited p_src]; auto.
 Qed.
 Lemma step_pinv w o :
   op_prio_ok o -> pinv w ->
